@@ -286,16 +286,16 @@ endpoints is wrapped in its own `cb.Call`, one per request (per page of a pagina
 file is what stands between sso-auth and a failing service. -/
 theorem C15_wiring_callers :
     Sso.Generated.skel_gadmin_listMemberships =
-      ["call:NewLogEntry", "call:Sprintf", "for{", "call:Now", "call:List", "call:MaxResults", "if{", "call:PageToken", "}", "call:Incr", "func{", "call:Do", "return", "}", "call:Call", "if{", "typeswitch{", "case{", "call:Sprintf", "call:append", "call:Incr", "call:Incr", "switch{", "case 400{", "call:Error", "if{", "}", "}", "case 404{", "call:WithUserGroup", "call:Warn", "}", "case 429{", "}", "case 503{", "}", "}", "}", "case{", "call:append", "call:Incr", "}", "case{", "call:append", "call:Incr", "}", "}", "return", "}", "call:Sprintf", "call:append", "call:Now", "call:Sub", "call:Timing", "call:Incr", "range{", "switch{", "case \"USER\"{", "call:append", "}", "case \"GROUP\"{", "if{", "continue", "}", "call:listMemberships", "if{", "return", "}", "call:append", "}", "default{", "call:Errorf", "call:WithError", "call:Error", "continue", "}", "}", "}", "if{", "break", "}", "}", "return"] ∧
+      ["for{", "call:Now", "call:List", "call:MaxResults", "if{", "call:PageToken", "}", "func{", "call:Do", "return", "}", "call:Call", "if{", "typeswitch{", "case{", "switch{", "case 400{", "call:Error", "if{", "}", "}", "case 404{", "}", "case 429{", "}", "case 503{", "}", "}", "}", "case{", "}", "case{", "}", "}", "return", "}", "range{", "switch{", "case \"USER\"{", "call:append", "}", "case \"GROUP\"{", "if{", "continue", "}", "call:listMemberships", "if{", "return", "}", "call:append", "}", "default{", "call:Errorf", "continue", "}", "}", "}", "if{", "break", "}", "}", "return"] ∧
     Sso.Generated.skel_gadmin_CheckMemberships =
-      ["call:NewLogEntry", "range{", "call:Now", "call:HasMember", "call:Incr", "func{", "call:Do", "return", "}", "call:Call", "if{", "typeswitch{", "case{", "call:Sprintf", "call:append", "call:Incr", "call:Incr", "switch{", "case 400{", "call:Error", "if{", "}", "}", "case 404{", "call:WithUserGroup", "call:Warn", "continue", "}", "case 429{", "}", "case 503{", "}", "}", "}", "case{", "call:append", "call:Incr", "}", "case{", "call:append", "call:Incr", "}", "}", "return", "}", "call:Sprintf", "call:append", "call:Now", "call:Sub", "call:Timing", "call:Incr", "if{", "call:append", "}", "}", "return"] ∧
+      ["range{", "call:Now", "call:HasMember", "func{", "call:Do", "return", "}", "call:Call", "if{", "typeswitch{", "case{", "switch{", "case 400{", "call:Error", "if{", "}", "}", "case 404{", "continue", "}", "case 429{", "}", "case 503{", "}", "}", "}", "case{", "}", "case{", "}", "}", "return", "}", "if{", "call:append", "}", "}", "return"] ∧
     Sso.Generated.skel_cadmin_ListMemberships =
-      ["call:Sprintf", "for{", "call:Now", "call:ListUsersInGroupRequest", "if{", "call:SetNextToken", "}", "call:Incr", "func{", "call:Send", "return", "}", "call:Call", "if{", "typeswitch{", "case{", "call:Sprintf", "call:append", "call:Incr", "call:Incr", "call:Code", "switch{", "case cognitoidentityprovider.ErrCodeTooManyRequestsException{", "}", "case cognitoidentityprovider.ErrCodeInternalErrorException{", "}", "}", "}", "case{", "call:append", "call:Incr", "}", "case{", "call:append", "call:Incr", "}", "}", "return", "}", "call:Sprintf", "call:append", "call:Now", "call:Sub", "call:Timing", "call:Incr", "range{", "call:append", "}", "if{", "break", "}", "}", "return"] ∧
+      ["for{", "call:Now", "call:ListUsersInGroupRequest", "if{", "call:SetNextToken", "}", "func{", "call:Send", "return", "}", "call:Call", "if{", "typeswitch{", "case{", "call:Code", "switch{", "case cognitoidentityprovider.ErrCodeTooManyRequestsException{", "}", "case cognitoidentityprovider.ErrCodeInternalErrorException{", "}", "}", "}", "case{", "}", "case{", "}", "}", "return", "}", "range{", "call:append", "}", "if{", "break", "}", "}", "return"] ∧
     Sso.Generated.skel_cadmin_CheckMemberships =
-      ["for{", "call:Now", "call:AdminListGroupsForUserRequest", "if{", "call:SetNextToken", "}", "call:Incr", "func{", "call:Send", "return", "}", "call:Call", "if{", "typeswitch{", "case{", "call:Sprintf", "call:append", "call:Incr", "call:Incr", "call:Code", "switch{", "case cognitoidentityprovider.ErrCodeTooManyRequestsException{", "}", "case cognitoidentityprovider.ErrCodeInternalErrorException{", "}", "}", "}", "case{", "call:append", "call:Incr", "}", "case{", "call:append", "call:Incr", "}", "}", "return", "}", "call:Sprintf", "call:append", "call:Now", "call:Sub", "call:Timing", "call:Incr", "range{", "call:append", "}", "if{", "break", "}", "}", "return"] ∧
+      ["for{", "call:Now", "call:AdminListGroupsForUserRequest", "if{", "call:SetNextToken", "}", "func{", "call:Send", "return", "}", "call:Call", "if{", "typeswitch{", "case{", "call:Code", "switch{", "case cognitoidentityprovider.ErrCodeTooManyRequestsException{", "}", "case cognitoidentityprovider.ErrCodeInternalErrorException{", "}", "}", "}", "case{", "}", "case{", "}", "}", "return", "}", "range{", "call:append", "}", "if{", "break", "}", "}", "return"] ∧
     Sso.Generated.skel_google_googleRequest =
-      ["call:NewLogEntry", "call:Now", "call:append", "switch{", "case \"POST\"{", "call:Encode", "call:NewBufferString", "}", "case \"GET\"{", "call:Parse", "call:Encode", "store:u.RawQuery", "call:String", "}", "default{", "return", "}", "}", "call:NewRequest", "if{", "return", "}", "call:Set", "call:Incr", "call:Do", "if{", "call:append", "call:Incr", "return", "}", "call:Sprintf", "call:append", "call:Now", "call:Sub", "call:Timing", "call:Incr", "call:ReadAll", "call:Close", "if{", "call:append", "call:Incr", "return", "}", "if{", "call:Incr", "call:stripToken", "call:WithHTTPStatus", "call:WithEndpoint", "call:WithResponseBody", "call:Error", "switch{", "case 400{", "call:Unmarshal", "if{", "call:Incr", "return", "}", "return", "}", "case 429{", "return", "}", "default{", "return", "}", "}", "}", "if{", "call:Unmarshal", "if{", "call:Incr", "return", "}", "}", "return"] ∧
+      ["call:Now", "switch{", "case \"POST\"{", "call:Encode", "call:NewBufferString", "}", "case \"GET\"{", "call:Parse", "call:Encode", "store:u.RawQuery", "call:String", "}", "default{", "return", "}", "}", "call:NewRequest", "if{", "return", "}", "call:Set", "call:Do", "if{", "return", "}", "call:ReadAll", "call:Close", "if{", "return", "}", "if{", "switch{", "case 400{", "call:Unmarshal", "if{", "return", "}", "return", "}", "case 429{", "return", "}", "default{", "return", "}", "}", "}", "if{", "call:Unmarshal", "if{", "return", "}", "}", "return"] ∧
     Sso.Generated.skel_okta_oktaRequest =
-      ["call:NewLogEntry", "call:Now", "call:append", "switch{", "case \"POST\"{", "call:Encode", "call:NewBufferString", "}", "case \"GET\"{", "call:Parse", "call:Encode", "store:u.RawQuery", "call:String", "}", "default{", "return", "}", "}", "call:NewRequest", "if{", "return", "}", "if{", "store:req.Header", "}", "call:Set", "call:Incr", "call:Do", "if{", "call:append", "call:Incr", "return", "}", "call:Sprintf", "call:append", "call:Now", "call:Sub", "call:Timing", "call:Incr", "call:ReadAll", "call:Close", "if{", "call:append", "call:Incr", "return", "}", "if{", "call:Incr", "call:stripToken", "call:WithHTTPStatus", "call:WithEndpoint", "call:WithResponseBody", "call:Error", "switch{", "case 400{", "call:Unmarshal", "call:ToLower", "call:Contains", "if{", "call:Incr", "return", "}", "return", "}", "case 429{", "return", "}", "default{", "return", "}", "}", "}", "if{", "call:Unmarshal", "if{", "call:Incr", "return", "}", "}", "return"] := by decide
+      ["call:Now", "switch{", "case \"POST\"{", "call:Encode", "call:NewBufferString", "}", "case \"GET\"{", "call:Parse", "call:Encode", "store:u.RawQuery", "call:String", "}", "default{", "return", "}", "}", "call:NewRequest", "if{", "return", "}", "if{", "store:req.Header", "}", "call:Set", "call:Do", "if{", "return", "}", "call:ReadAll", "call:Close", "if{", "return", "}", "if{", "switch{", "case 400{", "call:Unmarshal", "call:ToLower", "call:Contains", "if{", "return", "}", "return", "}", "case 429{", "return", "}", "default{", "return", "}", "}", "}", "if{", "call:Unmarshal", "if{", "return", "}", "}", "return"] := by decide
 
 end Sso.Breaker
